@@ -211,22 +211,22 @@ func literalFor(t string) string {
 
 // per-variable benign values where the generic literal of the type is out of the variable's domain
 var setValue = map[string]string{
-	"beresp.status":            "200",
-	"obj.status":               "200",
-	"resp.status":              "200",
-	"beresp.response":          `"OK"`,
-	"obj.response":             `"OK"`,
-	"resp.response":            `"OK"`,
-	"req.method":               `"GET"`,
-	"bereq.method":             `"GET"`,
-	"req.url":                  `"/abc"`,
-	"bereq.url":                `"/abc"`,
-	"client.geo.ip_override":   `"192.0.2.1"`,
-	"req.proto":                `"HTTP/1.1"`,
-	"bereq.proto":              `"HTTP/1.1"`,
-	"beresp.proto":             `"HTTP/1.1"`,
-	"obj.proto":                `"HTTP/1.1"`,
-	"resp.proto":               `"HTTP/1.1"`,
+	"beresp.status":                      "200",
+	"obj.status":                         "200",
+	"resp.status":                        "200",
+	"beresp.response":                    `"OK"`,
+	"obj.response":                       `"OK"`,
+	"resp.response":                      `"OK"`,
+	"req.method":                         `"GET"`,
+	"bereq.method":                       `"GET"`,
+	"req.url":                            `"/abc"`,
+	"bereq.url":                          `"/abc"`,
+	"client.geo.ip_override":             `"192.0.2.1"`,
+	"req.proto":                          `"HTTP/1.1"`,
+	"bereq.proto":                        `"HTTP/1.1"`,
+	"beresp.proto":                       `"HTTP/1.1"`,
+	"obj.proto":                          `"HTTP/1.1"`,
+	"resp.proto":                         `"HTTP/1.1"`,
 	"client.socket.congestion_algorithm": `"cubic"`,
 }
 
@@ -275,6 +275,16 @@ func varCells(vars map[string]varDef, scopeList []string, fam string, ops []stri
 				case "unset":
 					c.Ref = verdict(inScope && d.Unset)
 					c.Stmt = "unset " + cn + ";"
+				case "gettype":
+					// type-strict read: `==` demands identical operand types in the linter and in the
+					// simulator, so the declared get type, the linter's type and the runtime type must agree
+					if d.Get == "" || d.Get == "ID" {
+						continue
+					}
+					c.Ref = verdict(inScope)
+					c.Pre = "declare local var.t " + localTypeFor(d.Get) + ";\nset var.t = " + literalFor(d.Get) + ";"
+					// both operand orders: the simulator coerces the right operand when the left one is an IP
+					c.Stmt = "if (var.t == " + cn + ") {} if (" + cn + " == var.t) {}"
 				}
 				out = append(out, c)
 			}
@@ -315,9 +325,84 @@ func argFor(t string) string {
 }
 
 // fnArgs: complete benign argument lists for functions whose generic representatives are outside
-// the function's value domain (key "name" applies to every signature prefix-wise; "name#i" to
-// signature i only).
-var fnArgs = map[string][]string{}
+// the function's value domain (key "name" applies to every signature, truncated to the signature's
+// length; "name#i" to signature i only). Found by running the generic representatives and reading
+// the value errors the simulator returned.
+var fnArgs = map[string][]string{
+	"accept.media_lookup": {`"text/plain:text/html"`, `"text/plain"`, `"image/*"`, `"text/html"`},
+	// cipher, mode, padding, key (hex), iv (hex), text (hex / base64 of one 16-byte block)
+	"crypto.encrypt_hex":    {"aes128", "cbc", "nopad", hexKey, hexKey, hexBlock},
+	"crypto.decrypt_hex":    {"aes128", "cbc", "nopad", hexKey, hexKey, hexBlock},
+	"crypto.encrypt_base64": {"aes128", "cbc", "nopad", hexKey, hexKey, b64Block},
+	"crypto.decrypt_base64": {"aes128", "cbc", "nopad", hexKey, hexKey, b64Block},
+	// hash method, public key (PEM), payload, signature, [format,] base64 variant
+	"digest.rsa_verify":                  {"sha256", "var.pem", `"abc"`, rsaSig, "url_nopad"},
+	"digest.ecdsa_verify":                {"sha256", "var.pem", `"abc"`, ecSig, "der", "url_nopad"},
+	"digest.hash_sha1_from_base64":       {`"YWJj"`},
+	"digest.hash_sha256_from_base64":     {`"YWJj"`},
+	"digest.hash_sha512_from_base64":     {`"YWJj"`},
+	"digest.hash_xxh32_from_base64":      {`"YWJj"`},
+	"digest.hash_xxh64_from_base64":      {`"YWJj"`},
+	"digest.hmac_sha256_with_base64_key": {`"YWJj"`, `"YWJj"`},
+	// key (base64), interval, offset. The functions read the wall clock: an interval longer than the
+	// current epoch time pins the TOTP counter to 0 so that the cell is deterministic. For MD5 the key
+	// is one whose counter-0 HMAC ends in a nibble >= 13 (3 of 16 keys/time steps do): with the generic
+	// key the cell panicked or not depending on the 30 s window the run happened to fall in.
+	"digest.time_hmac_md5":        {`"c2VjcmV0"`, "99999999999", "1"},
+	"digest.time_hmac_sha1":       {`"c2VjcmV0"`, "99999999999", "1"},
+	"digest.time_hmac_sha256":     {`"c2VjcmV0"`, "99999999999", "1"},
+	"digest.time_hmac_sha512":     {`"c2VjcmV0"`, "99999999999", "1"},
+	"setcookie.delete_by_name":    {"resp", `"abc"`},
+	"setcookie.get_value_by_name": {"resp", `"abc"`},
+	"std.atof":                    {`"1.5"`},
+	"std.atoi":                    {`"1"`},
+	"std.ip":                      {`"192.0.2.1"`, `"192.0.2.2"`},
+	"std.str2ip":                  {`"192.0.2.1"`, `"192.0.2.2"`},
+	"std.itoa":                    {"1", "10"},
+	"std.strtof":                  {`"1.5"`, "10"},
+	"std.strtol":                  {`"1"`, "10"},
+	"std.count":                   {"req.headers"},
+	"subfield":                    {`"a=b"`, `"a"`, `";"`},
+	"time.runits":                 {`"s"`, "10s"},
+	"time.units":                  {`"s"`, "now"},
+	"uuid.version3":               {`"6ba7b810-9dad-11d1-80b4-00c04fd430c8"`, `"abc"`},
+	"uuid.version5":               {`"6ba7b810-9dad-11d1-80b4-00c04fd430c8"`, `"abc"`},
+	// entry, ratecounter, delta, window (1|10|60), limit (10..), [ratecounter, delta, window, limit,] penaltybox, ttl (1m..1h)
+	"ratelimit.check_rate":            {`"abc"`, "rc1", "1", "10", "100", "pb1", "10m"},
+	"ratelimit.check_rates":           {`"abc"`, "rc1", "1", "10", "100", "rc2", "1", "60", "100", "pb1", "10m"},
+	"ratelimit.penaltybox_add":        {"pb1", `"abc"`, "10m"},
+	"ratelimit.penaltybox_has":        {"pb1", `"abc"`},
+	"ratelimit.ratecounter_increment": {"rc1", `"abc"`, "1"},
+	"table.lookup_acl":                {"tbl_acl", `"abc"`, "acl1"},
+	"table.lookup_backend":            {"tbl_backend", `"abc"`, "example"},
+	"table.lookup_bool":               {"tbl_bool", `"abc"`, "true"},
+	"table.lookup_float":              {"tbl_float", `"abc"`, "1.5"},
+	"table.lookup_integer":            {"tbl_int", `"abc"`, "1"},
+	"table.lookup_ip":                 {"tbl_ip", `"abc"`, "var.ip"},
+	"table.lookup_rtime":              {"tbl_rtime", `"abc"`, "10s"},
+	"table.lookup_regex":              {"tbl_regex", `"abc"`},
+}
+
+const (
+	hexKey   = `"000102030405060708090a0b0c0d0e0f"`
+	hexBlock = `"00112233445566778899aabbccddeeff"`
+	b64Block = `"ABEiM0RVZneImaq7zN3u/w=="`
+	ecSig    = `"MEUCIQDJs-XsHz5PKpc6vw8OMP8Fd-NHGeglN74vNnBhHq7tnwIgYuVctW3XLnHGIZujLNyXexN35hVTS6P_tJ-lBCuwlkg"`
+	rsaSig   = `"oMEu2vadYcPUmMGBuswPFvYVFta89xMKcFhncizc4vExgGFXw-kArpXcG1OgMmIer_qSHSpX7GlrISKj5E5QGXQIH9Xce4MHQsR4Tg9zsdrFkkLIv_JZ-3dvyrHuwg-dWBi-pP0dW1B4AjSGnFFaqXaP7XXA3bqV9pCcoYQnzNIzzDBb9Rn2tHKSU4-zPRmFZv2bF80kyp1wepugqs5DzK7zYFOAgRSv8jhkm9P22g4OeXwsOZx2aKSL1CRTaeHslYcqjnBAICyf365ZEkiV8lbXGVojskRlABGnIPO4JYT0xntjgnb9pXX_F8H1dqzFvA8wPc9KkqFqpBdcRiwbgw"`
+	ecPEM    = "-----BEGIN PUBLIC KEY-----\nMFkwEwYHKoZIzj0CAQYIKoZIzj0DAQcDQgAEG6XHMuku8w/pMHTZHws4axDhsMVn\nZft8sZ87xBPqiT92NfMLnb5vwMHwCW2iZOuU8RM9FPsqwVmRjJY27yd+uw==\n-----END PUBLIC KEY-----\n"
+	rsaPEM   = "-----BEGIN PUBLIC KEY-----\nMIIBIjANBgkqhkiG9w0BAQEFAAOCAQ8AMIIBCgKCAQEAqN8D/jsjeGHhQvrmo/1g\nBAFi2WKkFSyJsU+bnz2OhLTPyc+IJotpJ2XyKxo3QlhEZy4XFbG4hqSk7+NmSM7e\nHxNkK0DCvsrcbshkh+H79076Qkxy3ygxZ/vdZPu2pd90lMaDFFZ5UarxFdrlsOuy\ngBc/UIj0s2XdasJ/O/r8qf0EAco2O4smvP8a85EWQIKTuYE069dM4d3wojdJ64PK\nml00fv2RBzG37sBEOFqpQIlh6dAAFSyxiI4rV9n7e3eYpTaRGZ6nd9N3SHxGHzXL\nyGxresPQCduRgspEa0Y8KbX5D2VTZVwPGCfRWXixABzZuuqjbWQQbP6WAAqtscRf\n/QIDAQAB\n-----END PUBLIC KEY-----\n"
+)
+
+// extra scaffolding statements a function's representative arguments need
+func fnExtraPre(name string) string {
+	switch name {
+	case "digest.rsa_verify":
+		return "declare local var.pem STRING;\nset var.pem = {\"" + rsaPEM + "\"};"
+	case "digest.ecdsa_verify":
+		return "declare local var.pem STRING;\nset var.pem = {\"" + ecPEM + "\"};"
+	}
+	return ""
+}
 
 func argsFor(name string, sigIdx int, sig []string) []string {
 	if a, ok := fnArgs[fmt.Sprintf("%s#%d", name, sigIdx)]; ok {
@@ -351,6 +436,10 @@ func fnCells(fns map[string]fnDef, scopeList []string, fam string, variants bool
 				variadic = true
 			}
 		}
+		pre := fnPre
+		if x := fnExtraPre(name); x != "" {
+			pre += "\n" + x
+		}
 		for si, sig := range sigs {
 			args := argsFor(name, si, sig)
 			type form struct {
@@ -366,10 +455,24 @@ func fnCells(fns map[string]fnDef, scopeList []string, fam string, variants bool
 				if !counts[len(args)+1] && !variadic {
 					forms = append(forms, form{"+1arg", append(append([]string{}, args...), `"abc"`), false})
 				}
+				// one argument of a type no parameter coerces from (an ACL; a STRING where an ACL is declared)
+				for i := range args {
+					bad := append([]string{}, args...)
+					bad[i] = "acl1"
+					if sig[i] == "ACL" {
+						bad[i] = `"abc"`
+					}
+					forms = append(forms, form{fmt.Sprintf("!arg%d", i+1), bad, false})
+				}
 			}
 			for _, f := range forms {
-				call := name + "(" + strings.Join(f.args, ", ") + ")"
 				for _, sc := range scopeList {
+					fargs := f.args
+					if strings.HasPrefix(name, "setcookie.") && sc == "FETCH" && len(fargs) > 0 && fargs[0] == "resp" {
+						// the response object readable in vcl_fetch is beresp (resp elsewhere)
+						fargs = append([]string{"beresp"}, fargs[1:]...)
+					}
+					call := name + "(" + strings.Join(fargs, ", ") + ")"
 					inScope := true
 					for _, s := range strings.Split(sc, ",") {
 						if !has(d.On, s) {
@@ -385,16 +488,20 @@ func fnCells(fns map[string]fnDef, scopeList []string, fam string, variants bool
 						c := cell{ID: fmt.Sprintf("fn:%s/%s/%s/expr", name, sigID, sc), Fam: fm, Scope: sc, Ref: verdict(inScope && f.ok)}
 						switch d.Return {
 						case "REGEX":
-							c.Pre = fnPre
+							c.Pre = pre
 							c.Stmt = `if (req.url ~ ` + call + `) {}`
+						case "ACL":
+							// an ACL value is only usable as the right operand of a match
+							c.Pre = pre
+							c.Stmt = `if (var.ip ~ ` + call + `) {}`
 						default:
-							c.Pre = fnPre + "\ndeclare local var.x " + d.Return + ";"
+							c.Pre = pre + "\ndeclare local var.x " + d.Return + ";"
 							c.Stmt = "set var.x = " + call + ";"
 						}
 						out = append(out, c)
 					}
 					c := cell{ID: fmt.Sprintf("fn:%s/%s/%s/stmt", name, sigID, sc), Fam: fm, Scope: sc, Ref: verdict(inScope && f.ok && d.Return == "")}
-					c.Pre = fnPre
+					c.Pre = pre
 					c.Stmt = call + ";"
 					out = append(out, c)
 				}
@@ -491,11 +598,14 @@ func leftOperand(t string) (operand, bool) {
 		return operand{t, "set req.http.X = \"192.0.2.9\";", "req.http.X"}, true
 	case "ACL":
 		return operand{t, "", "acl1"}, true
+	case "ACLlocal":
+		return operand{"ACL", "declare local var.l ACL;", "var.l"}, true
 	}
 	return operand{}, false
 }
 
-var leftTypesAssign = []string{"INTEGER", "FLOAT", "STRING", "BOOL", "RTIME", "TIME", "IP", "BACKEND", "REQBACKEND", "header"}
+// assignment targets: ACL is a declared local of type ACL (uninitialised: initialising it is the cell itself)
+var leftTypesAssign = []string{"INTEGER", "FLOAT", "STRING", "BOOL", "RTIME", "TIME", "IP", "BACKEND", "REQBACKEND", "ACL", "header"}
 var leftTypesCmp = []string{"INTEGER", "FLOAT", "STRING", "BOOL", "RTIME", "TIME", "IP", "BACKEND", "ACL", "header"}
 var rightTypes = []string{"INTEGER", "FLOAT", "STRING", "BOOL", "RTIME", "TIME", "IP", "BACKEND", "ACL", "header"}
 var forms = []string{"literal", "local", "predefined"}
@@ -555,7 +665,7 @@ func rightOperand(t, form string) (operand, bool) {
 		case "TIME":
 			return operand{t, "", "now"}, true
 		case "IP":
-			return operand{t, "", "client.ip"}, true
+			return operand{t, "", predefIP}, true
 		case "BACKEND":
 			return operand{t, "", "req.backend"}, true
 		case "header":
@@ -570,6 +680,7 @@ const (
 	predefInteger = "client.requests"     // 1
 	predefFloat   = "client.geo.latitude" // 37.779
 	predefRTime   = "client.sess_timeout" // 600s
+	predefIP      = "server.ip"           // client.ip is typed STRING by predefined.yml (and so by the linter): see the gettype cells
 	predefString  = "client.identity"     // "192.0.2.1": a STRING that is also a valid IP, so that IP = STRING is value-benign
 )
 
@@ -587,6 +698,9 @@ func opCells() []cell {
 	for _, op := range assignOps {
 		for _, lt := range leftTypesAssign {
 			l, _ := leftOperand(lt)
+			if lt == "ACL" {
+				l, _ = leftOperand("ACLlocal")
+			}
 			for _, rt := range rightTypes {
 				for _, f := range forms {
 					r, ok := rightOperand(rt, f)
@@ -651,7 +765,7 @@ func gen(g *fw.GenCtx) {
 		panic(err)
 	}
 	var all []cell
-	all = append(all, varCells(vars, scopes, "B1", []string{"get", "set", "unset"})...)
+	all = append(all, varCells(vars, scopes, "B1", []string{"get", "set", "unset", "gettype"})...)
 	all = append(all, fnCells(fns, scopes, "B2", !g.Quick())...)
 	all = append(all, stmtCells(scopes, "B3")...)
 	tab, terr := loadTable(g.Verif)
@@ -667,13 +781,17 @@ func gen(g *fw.GenCtx) {
 		all = append(all, fnCells(fns, p, "P", false)...)
 		all = append(all, stmtCells(p, "P")...)
 	}
+	// one case = up to 300 cells of one family (the case kind names the family so that the evidence
+	// carries written-out samples of every family)
 	const per = 300
-	for i := 0; i < len(all); i += per {
-		j := i + per
-		if j > len(all) {
-			j = len(all)
+	sort.SliceStable(all, func(a, b int) bool { return all[a].Fam < all[b].Fam })
+	for i := 0; i < len(all); {
+		j := i
+		for j < len(all) && j-i < per && all[j].Fam == all[i].Fam {
+			j++
 		}
-		g.Emit("cells", batch{Cells: all[i:j]})
+		g.Emit("cells/"+all[i].Fam, batch{Cells: all[i:j]})
+		i = j
 	}
 }
 
@@ -765,6 +883,10 @@ func slug(s string) string {
 // stripPos removes the "in <file> at line N, position M" tail exception.Runtime adds.
 func stripPos(s string) string {
 	s = firstLine(s)
+	s = strings.TrimPrefix(s, "[RuntimeException] ")
+	if i := strings.Index(s, " at line: "); i >= 0 {
+		s = s[:i]
+	}
 	if i := strings.Index(s, " in "); i >= 0 && strings.Contains(s[i:], " at line ") {
 		s = s[:i]
 	}
@@ -816,6 +938,23 @@ func runCell(oc *fw.Outcome, c cell) {
 		oc.Violate(c.ID+"/lint:rejects-ref-accepts", fmt.Sprintf("linter rejects `%s` in %s (%s) but the reference allows it", c.Stmt, c.Scope, strings.Join(lo.onLine, " | ")), detail(map[string]any{"lint_errors": lo.onLine}))
 	}
 	if !lo.accepted {
+		if fw.Tier == "thorough" && !strings.Contains(c.Scope, ",") && c.NoExec == "" {
+			// information only (the property is one-directional here): does the simulator run what the linter rejects?
+			mainVCL, subVCL := execSource(c)
+			fw.JournalS(c.ID + "\nEXEC(rejected) " + c.Scope + "\n" + subVCL)
+			var res *sim.Result
+			p, _, _ := fw.Guard(func() {
+				res = sim.RunSub(mainVCL, subVCL, c.Scope, nil, sim.Request{}, func(m *sim.Monitor) { m.NoSnaps = true })
+			})
+			switch {
+			case p:
+				oc.Tag("info/lint-rejects-sim-panics/" + fam)
+			case res.InitErr != nil || res.ParseErr != nil || res.Err != nil:
+				oc.Tag("info/lint-rejects-sim-rejects/" + fam)
+			default:
+				oc.Tag("info/lint-rejects-sim-accepts/" + fam)
+			}
+		}
 		return
 	}
 	if strings.Contains(c.Scope, ",") {
@@ -835,6 +974,7 @@ func runCell(oc *fw.Outcome, c cell) {
 	oc.Tag("executed/" + fam)
 	xd := map[string]any{"exec_sub": subVCL}
 	if p {
+		oc.Tag("exec-panic/" + fam)
 		oc.Violate(c.ID+"/exec:"+fw.PanicKey(st), fmt.Sprintf("linter accepts `%s` in %s but the simulator panics: %s", c.Stmt, c.Scope, msg), detail(map[string]any{"exec_sub": subVCL, "stack": fw.TrimStack(st)}))
 		return
 	}
@@ -850,7 +990,19 @@ func runCell(oc *fw.Outcome, c cell) {
 	em := stripPos(res.Err.Error())
 	class, viol := errClass(em)
 	xd["error"] = em
+	if strings.Contains(c.ID, "/gettype/") && (strings.Contains(em, "comparison NULL and") || strings.HasSuffix(em, "and NULL")) {
+		// the variable is not readable at all: that is the finding of the plain `get` cell
+		oc.Tag("gettype-undefined(reported-by-get-cell)")
+		return
+	}
+	if !viol && strings.HasPrefix(c.ID, "var:") && (strings.Contains(c.ID, "/get/") || strings.Contains(c.ID, "/gettype/") || strings.Contains(c.ID, "/unset/")) {
+		// a plain read or unset has no operand whose value could be to blame
+		class, viol = "error:"+class, true
+	}
 	if !viol {
+		if os.Getenv("C05_TRACE") != "" {
+			fmt.Fprintf(os.Stderr, "TRACE inconclusive %s `%s`: %s\n", c.ID, c.Stmt, em)
+		}
 		oc.Tag("inconclusive:" + class)
 		oc.Tag("exec-inconclusive/" + fam)
 		return
@@ -889,10 +1041,12 @@ func finish(r *fw.Report) {
 	for _, k := range keys {
 		v := r.Viols[k]
 		rows = append(rows, row{k, v.What, v.Detail})
-		i := strings.LastIndex(k, "/")
-		d := k[i+1:]
-		if strings.HasPrefix(d, "exec:") {
+		d := "other"
+		switch {
+		case strings.Contains(k, "/exec:"):
 			d = "exec"
+		case strings.Contains(k, "/lint:"):
+			d = k[strings.Index(k, "/lint:")+1:]
 		}
 		dir[d]++
 	}
